@@ -609,6 +609,25 @@ class InspectFunction(object):
         # but the code lines are provided from the top of the function.
 
         method_fis: List[FunctionInteractions] = []
+        # The base classes defined in the accepted packages: their methods are inherited.
+        for base in node.bases:
+            if not isinstance(base, (ast.Name, ast.Attribute)):
+                continue
+            base_local_path = LocalDepPath(
+                PurePosixPath("/".join(_function_name(base)))
+            )
+            z = ObjectRetrieval.retrieve_object(base_local_path, mod, gctx)
+            if (
+                isinstance(z, AuthorizedObject)
+                and inspect.isclass(z.object_val)
+                and z.resolved_path != fun_path
+                and z.resolved_path not in call_stack
+            ):
+                method_fis.append(
+                    _introspect_class(
+                        z.object_val, arg_ctx, gctx, call_stack + [fun_path]
+                    )
+                )
         for elem in node.body:
             if isinstance(elem, ast.FunctionDef):
                 # Parsing the function call
